@@ -124,6 +124,14 @@ async def scenario(case: dict[str, Any], out: dict[str, Any]) -> None:
     for pi in order:
         i, a = pairs[pi]
         bound[(i, a)] = getattr(insts[i], a)
+    crowd: list[Any] = []
+    if case.get("crowd"):
+        # hundreds of other live owners whose channels come into being in between: the channels bound so far stay what they are
+        crowd = [make_instance(cls, kind, 1000 + j) for j in range(case["crowd"])]
+        for c in crowd[: len(crowd) // 2]:
+            for a in attr_ev:
+                getattr(c, a)
+        inc("layouts_with_a_crowd_of_other_live_owners")
     for (i, a) in pairs:
         b = getattr(insts[i], a)
         if (i, a) not in bound:
@@ -179,12 +187,16 @@ async def scenario(case: dict[str, Any], out: dict[str, Any]) -> None:
         for k in bound:
             await ready[k].wait()
         await combined_ready.wait()
+        for c in crowd[len(crowd) // 2:]:
+            for a in attr_ev:
+                getattr(c, a)  # (the other half of the crowd turns up while the subscribers are listening)
         sent: dict[tuple[int, str], Any] = {}
         for n, k in enumerate(bound):
             ev = attr_ev[k[1]](n)
             sent[k] = ev
             try:
-                bound[k].dispatch(ev)
+                # (every other event is dispatched through a fresh attribute access: the same channel)
+                (getattr(insts[k[0]], k[1]) if n % 2 else bound[k]).dispatch(ev)
             except Exception as e:
                 bad("channel-dispatch-raised", f"dispatching the right event class on {k} raised {describe_exc(e)}")
                 continue
@@ -464,7 +476,8 @@ def gen_case(idx: int, seed: int, tier: str) -> Any:
     rng.shuffle(order)
     order = order[: rng.randint(0, len(order))]
     return {"kind": "random", "layout": {"n_event_classes": n_ev, "owner_kind": rng.choice(["plain", "plain", "slots", "frozen", "falsy"]), "subclass": sub, "attrs": attrs},
-            "n_instances": n_inst, "order": order, "backend": rng.choice(["asyncio", "trio"])}
+            "n_instances": n_inst, "order": order, "backend": rng.choice(["asyncio", "trio"]),
+            "crowd": rng.choice([300, 520, 1100]) if rng.random() < 0.04 else 0}
 
 
 def run_case(case: Any) -> dict[str, Any]:
